@@ -1,7 +1,505 @@
 package main
 
-import "fmt"
+// Seeded random driver: long histories with arguments aimed, by looking at the live state, both at
+// valid and at adversarial cases. It only chooses the schedule; the verdict on the recording is
+// TLC's (Trace.tla).
+
+import (
+	"bufio"
+	"fmt"
+	"math/rand"
+	"os"
+	"strings"
+)
+
+type Driver struct {
+	R       *Runner
+	Rng     *rand.Rand
+	Profile string
+	// bookkeeping to aim arguments
+	nextHash int
+}
+
+func (d *Driver) pick(xs []string) string { return xs[d.Rng.Intn(len(xs))] }
+func (d *Driver) chance(p float64) bool   { return d.Rng.Float64() < p }
+func (d *Driver) rint(lo, hi int) int     { return lo + d.Rng.Intn(hi-lo+1) }
+
+func (d *Driver) hash() string {
+	d.nextHash++
+	return fmt.Sprintf("h%d", d.nextHash)
+}
+
+func randGen(rng *rand.Rand, profile string) GenSpec {
+	g := DefaultGenSpec()
+	g.Accts = []string{"A1", "A2", "A3", "A4", "A5"}
+	for _, a := range g.Accts {
+		g.Bal[a] = map[string]int64{"nund": int64(rng.Intn(4)) * 400, "other": int64(rng.Intn(3)) * 500}
+	}
+	g.Bal["A1"]["nund"] = 2000
+	g.Bal["A2"]["nund"] = 1500
+	ns := 1 + rng.Intn(3)
+	g.Ent.Signers = g.Accts[:ns]
+	g.Ent.Min = uint64(1 + rng.Intn(ns))
+	g.Ent.Limit = uint64(1 + rng.Intn(5))
+	g.Ent.WL = []string{"A3", "A4", "A5"}[:1+rng.Intn(3)]
+	g.Wrk = RegGen{FeeReg: uint64(10 + rng.Intn(20)), FeeRec: uint64(1 + rng.Intn(3)), FeePur: uint64(1 + rng.Intn(4)), Denom: "nund",
+		Def: uint64(1 + rng.Intn(2)), StartID: uint64(1 + 6*rng.Intn(2))}
+	g.Wrk.Max = g.Wrk.Def + uint64(rng.Intn(4))
+	g.Bcn = RegGen{FeeReg: uint64(10 + rng.Intn(20)), FeeRec: uint64(1 + rng.Intn(3)), FeePur: uint64(1 + rng.Intn(4)), Denom: "nund",
+		Def: uint64(1 + rng.Intn(2)), StartID: 1}
+	g.Bcn.Max = g.Bcn.Def + uint64(rng.Intn(4))
+	vf := [][2]int64{{0, 1}, {1, 100}, {1, 2}, {1, 1}, {1, 4}}[rng.Intn(5)]
+	g.Str.FeeNum, g.Str.FeeDen = vf[0], vf[1]
+	return g
+}
+
+func genToM(g GenSpec) M {
+	bal := M{}
+	for a, m := range g.Bal {
+		bm := M{}
+		for k, v := range m {
+			bm[k] = v
+		}
+		bal[a] = bm
+	}
+	reg := func(r RegGen) M {
+		return M{"feeReg": r.FeeReg, "feeRec": r.FeeRec, "feePur": r.FeePur, "denom": r.Denom, "def": r.Def, "max": r.Max, "startId": r.StartID}
+	}
+	toI := func(xs []string) []interface{} {
+		o := []interface{}{}
+		for _, x := range xs {
+			o = append(o, x)
+		}
+		return o
+	}
+	m := M{"accts": toI(g.Accts), "bal": bal,
+		"ent": M{"signers": toI(g.Ent.Signers), "min": g.Ent.Min, "limit": g.Ent.Limit, "denom": g.Ent.Denom, "wl": toI(g.Ent.WL), "startId": g.Ent.StartID},
+		"wrk": reg(g.Wrk), "bcn": reg(g.Bcn), "str": M{"feeNum": g.Str.FeeNum, "feeDen": g.Str.FeeDen}}
+	if len(g.Vesting) > 0 {
+		v := M{}
+		for a, mm := range g.Vesting {
+			vm := M{}
+			for k, x := range mm {
+				vm[k] = x
+			}
+			v[a] = vm
+		}
+		m["vesting"] = v
+	}
+	if g.DB != "" {
+		m["db"] = g.DB
+	}
+	return m
+}
+
+// ---- message generators -------------------------------------------------
+
+func (d *Driver) w() *World { return d.R.W }
+
+func (d *Driver) anyAcct() string { return d.pick(d.w().Names) }
+
+func (d *Driver) curSigners() []string {
+	p := d.w().App.EnterpriseKeeper.GetParams(d.w().Ctx())
+	var out []string
+	for _, s := range strings.Split(p.EntSigners, ",") {
+		n := d.w().nameOf(s)
+		if contains(d.w().Names, n) {
+			out = append(out, n)
+		}
+	}
+	if len(out) == 0 {
+		out = []string{"A1"}
+	}
+	return out
+}
+
+func (d *Driver) entMsg() M {
+	w := d.w()
+	ctx := w.Ctx()
+	k := w.App.EnterpriseKeeper
+	switch d.rint(0, 9) {
+	case 0, 1, 2:
+		pur := d.anyAcct()
+		if d.chance(0.75) {
+			var wl []string
+			for _, n := range w.Names {
+				if k.AddressIsWhitelisted(ctx, w.Accts[n].Addr) {
+					wl = append(wl, n)
+				}
+			}
+			if len(wl) > 0 {
+				pur = d.pick(wl)
+			}
+		}
+		den := "nund"
+		if d.chance(0.05) {
+			den = "other"
+		}
+		return M{"t": "Raise", "pur": pur, "amt": int64(d.rint(1, 40)), "denom": den}
+	case 3, 4, 5, 6:
+		signer := d.anyAcct()
+		if d.chance(0.8) {
+			signer = d.pick(d.curSigners())
+		}
+		next, _ := k.GetHighestPurchaseOrderID(ctx)
+		id := uint64(d.rint(1, int(next)+1))
+		raised := k.GetAllRaisedPurchaseOrders(ctx)
+		if len(raised) > 0 && d.chance(0.8) {
+			id = raised[d.Rng.Intn(len(raised))]
+		}
+		dec := "accept"
+		if d.chance(0.35) {
+			dec = "reject"
+		}
+		return M{"t": "Decide", "signer": signer, "id": int64(id), "d": dec}
+	default:
+		signer := d.anyAcct()
+		if d.chance(0.8) {
+			signer = d.pick(d.curSigners())
+		}
+		act := "add"
+		if d.chance(0.4) {
+			act = "remove"
+		}
+		return M{"t": "Whitelist", "signer": signer, "addr": d.anyAcct(), "act": act}
+	}
+}
+
+func (d *Driver) entParams() M {
+	names := d.w().Names
+	n := d.rint(1, 3)
+	perm := d.Rng.Perm(len(names))
+	var ss []interface{}
+	for i := 0; i < n; i++ {
+		ss = append(ss, names[perm[i]])
+	}
+	min := d.rint(1, n)
+	return M{"signers": ss, "min": int64(min), "limit": int64(d.rint(1, 5)), "denom": "nund"}
+}
+
+func (d *Driver) regParams(k string) M {
+	def := d.rint(1, 3)
+	return M{"feeReg": int64(d.rint(5, 30)), "feeRec": int64(d.rint(1, 4)), "feePur": int64(d.rint(1, 5)), "denom": "nund",
+		"def": int64(def), "max": int64(def + d.rint(0, 3))}
+}
+
+func (d *Driver) govTx() M {
+	w := d.w()
+	mod := d.pick([]string{"ent", "wrk", "bcn", "str"})
+	if d.Profile == "ent" {
+		mod = "ent"
+	}
+	var p M
+	switch mod {
+	case "ent":
+		p = d.entParams()
+	case "wrk", "bcn":
+		p = d.regParams(mod)
+	case "str":
+		vf := [][2]int64{{0, 1}, {1, 100}, {1, 2}, {1, 1}, {1, 10}}[d.Rng.Intn(5)]
+		p = M{"feeNum": vf[0], "feeDen": vf[1]}
+	}
+	pid, _ := w.App.GovKeeper.GetProposalID(w.Ctx())
+	return M{"a": "DeliverTx", "msgs": []interface{}{
+		M{"t": "GovProp", "proposer": "V", "msgs": []interface{}{M{"t": "UpdParams", "mod": mod, "authority": "gov", "p": p}}},
+		M{"t": "Vote", "voter": "V", "id": int64(pid)}}}
+}
+
+// registry messages; returns msg and the exact fee it costs
+func (d *Driver) regMsg() (M, int64) {
+	w := d.w()
+	ctx := w.Ctx()
+	isW := d.chance(0.5)
+	if isW {
+		k := w.App.WrkchainKeeper
+		p := k.GetParams(ctx)
+		next, _ := k.GetHighestWrkChainID(ctx)
+		start := w.Gen.Wrk.StartID
+		have := next > start
+		c := d.rint(0, 9)
+		if !have || c == 0 {
+			return M{"t": "WReg", "owner": d.anyAcct(), "moniker": d.pick([]string{"m1", "m2", "LEN:64", "LEN:65"}), "name": d.pick([]string{"n", "", "LEN:128"}),
+				"genesis": d.pick([]string{"g", "LEN:66", ""}), "type": "geth"}, int64(p.FeeRegister)
+		}
+		id := start + uint64(d.Rng.Intn(int(next-start)))
+		if d.chance(0.05) {
+			id = next + 3
+		}
+		wc, _ := k.GetWrkChain(ctx, id)
+		owner := w.nameOf(wc.Owner)
+		if d.chance(0.15) || !contains(w.Names, owner) {
+			owner = d.anyAcct()
+		}
+		if c <= 6 {
+			h := int64(wc.Lastblock) + int64(d.rint(1, 3))
+			if d.chance(0.15) {
+				h = int64(wc.Lastblock) - int64(d.rint(0, 2))
+				if h < 0 {
+					h = 0
+				}
+			}
+			return M{"t": "WRec", "owner": owner, "id": int64(id), "h": h, "bh": d.hash(), "ph": d.pick([]string{"", "p"}), "h1": "", "h2": d.pick([]string{"", "LEN:66"}), "h3": ""}, int64(p.FeeRecord)
+		}
+		n := int64(d.rint(1, 3))
+		return M{"t": "WBuy", "owner": owner, "id": int64(id), "n": n}, int64(p.FeePurchaseStorage) * n
+	}
+	k := w.App.BeaconKeeper
+	p := k.GetParams(ctx)
+	next, _ := k.GetHighestBeaconID(ctx)
+	start := w.Gen.Bcn.StartID
+	have := next > start
+	c := d.rint(0, 9)
+	if !have || c == 0 {
+		return M{"t": "BReg", "owner": d.anyAcct(), "moniker": d.pick([]string{"b1", "b2", "LEN:64"}), "name": d.pick([]string{"n", "LEN:128", "LEN:129"})}, int64(p.FeeRegister)
+	}
+	id := start + uint64(d.Rng.Intn(int(next-start)))
+	if d.chance(0.05) {
+		id = next + 2
+	}
+	bc, _ := k.GetBeacon(ctx, id)
+	owner := w.nameOf(bc.Owner)
+	if d.chance(0.15) || !contains(w.Names, owner) {
+		owner = d.anyAcct()
+	}
+	if c <= 6 {
+		return M{"t": "BRec", "owner": owner, "id": int64(id), "hash": d.hash(), "subt": int64(d.rint(1, 100000))}, int64(p.FeeRecord)
+	}
+	n := int64(d.rint(1, 3))
+	return M{"t": "BBuy", "owner": owner, "id": int64(id), "n": n}, int64(p.FeePurchaseStorage) * n
+}
+
+func (d *Driver) regTx() M {
+	nm := 1
+	if d.chance(0.2) {
+		nm = d.rint(2, 3)
+	}
+	var msgs []interface{}
+	total := int64(0)
+	var owner string
+	for i := 0; i < nm; i++ {
+		m, f := d.regMsg()
+		if i == 0 {
+			owner = mStr(m, "owner")
+		} else if d.chance(0.8) {
+			m["owner"] = owner // same signer keeps it a single-signer tx most of the time
+		}
+		msgs = append(msgs, m)
+		total += f
+	}
+	fee := M{"nund": total}
+	switch d.rint(0, 19) {
+	case 0:
+		fee = M{"nund": total + 1}
+	case 1:
+		if total > 1 {
+			fee = M{"nund": total - 1}
+		}
+	case 2:
+		fee = M{}
+	case 3:
+		fee = M{"nund": total, "other": int64(1)}
+	}
+	ev := M{"a": "DeliverTx", "msgs": msgs, "fee": fee}
+	if d.chance(0.04) {
+		ev["badSig"] = true
+	}
+	if d.chance(0.03) {
+		ev["badSeq"] = true
+	}
+	return ev
+}
+
+func (d *Driver) streamMsg() M {
+	w := d.w()
+	ctx := w.Ctx()
+	type pair struct{ r, s string }
+	var live []pair
+	for _, r := range w.Names {
+		for _, s := range w.Names {
+			if r != s && w.App.StreamKeeper.IsStream(ctx, w.Accts[r].Addr, w.Accts[s].Addr) {
+				live = append(live, pair{r, s})
+			}
+		}
+	}
+	c := d.rint(0, 9)
+	if len(live) == 0 || c <= 1 {
+		s, r := d.anyAcct(), d.anyAcct()
+		if d.chance(0.03) {
+			r = "stream"
+		}
+		rate := int64(d.rint(1, 4))
+		dep := rate * int64(d.rint(55, 300))
+		return M{"t": "SCreate", "sender": s, "receiver": r, "dep": dep, "denom": d.pick([]string{"nund", "nund", "other"}), "rate": rate}
+	}
+	p := live[d.Rng.Intn(len(live))]
+	if d.chance(0.1) {
+		p.r, p.s = p.s, p.r // wrong direction / stranger
+	}
+	st, _ := w.App.StreamKeeper.GetStream(ctx, w.Accts[p.r].Addr, w.Accts[p.s].Addr)
+	den := st.Deposit.Denom
+	if den == "" || d.chance(0.05) {
+		den = d.pick([]string{"nund", "other"})
+	}
+	switch {
+	case c <= 4:
+		return M{"t": "SClaim", "sender": p.s, "receiver": p.r}
+	case c <= 6:
+		return M{"t": "STopUp", "sender": p.s, "receiver": p.r, "dep": int64(d.rint(1, 400)), "denom": den}
+	case c <= 8:
+		return M{"t": "SRate", "sender": p.s, "receiver": p.r, "rate": int64(d.rint(1, 5))}
+	}
+	return M{"t": "SCancel", "sender": p.s, "receiver": p.r}
+}
+
+func (d *Driver) sendMsg() M {
+	to := d.anyAcct()
+	if d.chance(0.4) {
+		to = d.pick([]string{"ent", "stream", "feecol"})
+	}
+	return M{"t": "Send", "from": d.anyAcct(), "to": to, "amt": int64(d.rint(1, 50)), "denom": d.pick([]string{"nund", "other"})}
+}
+
+func (d *Driver) wrapTx(msgs ...M) M {
+	var ms []interface{}
+	for _, m := range msgs {
+		ms = append(ms, m)
+	}
+	ev := M{"a": "DeliverTx", "msgs": ms}
+	if d.chance(0.03) {
+		ev["badSig"] = true
+	}
+	return ev
+}
+
+func (d *Driver) nextTx() M {
+	type gen struct {
+		w float64
+		f func() M
+	}
+	var gens []gen
+	ent := func() M {
+		m := d.entMsg()
+		if d.chance(0.1) {
+			// self-exec wrapper
+			return d.wrapTx(M{"t": "Exec", "grantee": mStr(m, SignerField(m)), "msgs": []interface{}{m}})
+		}
+		return d.wrapTx(m)
+	}
+	str := func() M {
+		m := d.streamMsg()
+		if d.chance(0.08) {
+			return d.wrapTx(M{"t": "Exec", "grantee": mStr(m, SignerField(m)), "msgs": []interface{}{m}})
+		}
+		if d.chance(0.1) {
+			m2 := d.streamMsg()
+			if mStr(m2, SignerField(m2)) == mStr(m, SignerField(m)) {
+				return d.wrapTx(m, m2)
+			}
+		}
+		return d.wrapTx(m)
+	}
+	send := func() M { return d.wrapTx(d.sendMsg()) }
+	switch d.Profile {
+	case "ent":
+		gens = []gen{{6, ent}, {1, d.govTx}, {2, d.regTx}, {0.5, send}}
+	case "reg":
+		gens = []gen{{1, ent}, {0.6, d.govTx}, {7, d.regTx}, {0.3, send}}
+	case "str":
+		gens = []gen{{7, str}, {0.6, d.govTx}, {0.5, send}}
+	default:
+		gens = []gen{{3, ent}, {1, d.govTx}, {3, d.regTx}, {3, str}, {1, send}}
+	}
+	tot := 0.0
+	for _, g := range gens {
+		tot += g.w
+	}
+	x := d.Rng.Float64() * tot
+	for _, g := range gens {
+		if x < g.w {
+			return g.f()
+		}
+		x -= g.w
+	}
+	return gens[0].f()
+}
+
+// SignerField names the field holding the entitled signer of a message.
+func SignerField(m M) string {
+	switch mStr(m, "t") {
+	case "Raise":
+		return "pur"
+	case "Decide", "Whitelist":
+		return "signer"
+	case "WReg", "WRec", "WBuy", "BReg", "BRec", "BBuy":
+		return "owner"
+	case "SCreate", "STopUp", "SRate", "SCancel":
+		return "sender"
+	case "SClaim":
+		return "receiver"
+	case "Send":
+		return "from"
+	}
+	return "signer"
+}
+
+func (d *Driver) dt() int64 {
+	switch d.Profile {
+	case "str":
+		return []int64{0, 400, 1000, 1000, 5000, 30000, 60000, 200000, 1700}[d.Rng.Intn(9)]
+	}
+	return []int64{0, 1000, 1000, 2000, 3000, 500, 6000}[d.Rng.Intn(7)]
+}
 
 func cmdRandom(profile string, seed int64, steps, runs int, out string) error {
-	return fmt.Errorf("not implemented")
+	f, err := os.Create(out)
+	if err != nil {
+		return err
+	}
+	defer f.Close()
+	bw := bufio.NewWriterSize(f, 1<<20)
+	defer bw.Flush()
+	r := NewRunner(bw)
+	for run := 0; run < runs; run++ {
+		rng := rand.New(rand.NewSource(seed*1000003 + int64(run)))
+		d := &Driver{R: r, Rng: rng, Profile: profile}
+		g := randGen(rng, profile)
+		if err := r.Step(M{"a": "InitChain", "g": genToM(g)}); err != nil {
+			return err
+		}
+		n := 0
+		for n < steps && !r.W.Halted {
+			if err := r.Step(M{"a": "BeginBlock", "dt": d.dt()}); err != nil {
+				return err
+			}
+			n++
+			if r.W.Halted {
+				break
+			}
+			ntx := d.rint(0, 4)
+			for i := 0; i < ntx; i++ {
+				ev := d.nextTx()
+				if err := r.Step(normalize(ev)); err != nil {
+					return fmt.Errorf("run %d: %w", run, err)
+				}
+				n++
+			}
+			if err := r.Step(M{"a": "EndBlock"}); err != nil {
+				return err
+			}
+			if err := r.Step(M{"a": "Commit"}); err != nil {
+				return err
+			}
+			n += 2
+		}
+	}
+	if r.W != nil {
+		r.W.Close()
+	}
+	return nil
+}
+
+// normalize round-trips a generated event through JSON so that it has exactly the shape a
+// schedule read from a file has (json.Number, []interface{}).
+func normalize(ev M) M {
+	return roundTrip(ev)
 }
